@@ -251,20 +251,27 @@ def tlrApplyAdditionalLoss (s : St) (env : Env) (currTime : Int) : St :=
       let u := tlrLoss_laterStepped (a_tlrBurstLaterRTTUnits := s1.tlrBurstLater)
       { s1 with tlrBurstLater := if tlrLoss_laterBelowMin (a_tlrBurstLaterRTTUnits := u) then tlrLoss_laterMin else u }
 
+/-- `if a.tlrFirstRTT && ackProgress { a.tlrFirstRTT = false }` -/
+def tlrLeaveFirst (s : St) (ackProgress : Bool) : St :=
+  if tlrFinish_leavesFirst (a_tlrFirstRTT := s.tlrFirstRTT) (ackProgress := ackProgress) then { s with tlrFirstRTT := false } else s
+
+/-- the good-operations counter at the end of an episode: 16 episodes without additional loss restore the default bursts -/
+def tlrScore (s : St) : St :=
+  if tlrFinish_clean (a_tlrHadAdditionalLoss := s.tlrHadAdditionalLoss) then
+    (if tlrFinish_resetsBurst (a_tlrGoodOps := s.tlrGoodOps + 1) then
+      { s with tlrBurstFirst := tlrFinish_firstDefault, tlrBurstLater := tlrFinish_laterDefault, tlrGoodOps := 0 }
+    else { s with tlrGoodOps := s.tlrGoodOps + 1 })
+  else { s with tlrGoodOps := 0 }
+
+/-- the end of an episode -/
+def tlrEnd (s : St) : St :=
+  { tlrScore s with tlrActive := false, tlrFirstRTT := false, tlrHadAdditionalLoss := false, tlrEndTSN := 0 }
+
 /-- `tlrMaybeFinishLocked(ackProgress)` -/
 def tlrMaybeFinish (s : St) (ackProgress : Bool) : St :=
   if !s.tlrActive then s
-  else
-    let s1 := if tlrFinish_leavesFirst (a_tlrFirstRTT := s.tlrFirstRTT) (ackProgress := ackProgress) then { s with tlrFirstRTT := false } else s
-    if tlrFinish_done (a_cumulativeTSNAckPoint := s1.cumAck) (a_tlrEndTSN := s1.tlrEndTSN) then
-      let s2 := if tlrFinish_clean (a_tlrHadAdditionalLoss := s1.tlrHadAdditionalLoss) then
-          let g := s1.tlrGoodOps + 1
-          if tlrFinish_resetsBurst (a_tlrGoodOps := g) then
-            { s1 with tlrBurstFirst := tlrFinish_firstDefault, tlrBurstLater := tlrFinish_laterDefault, tlrGoodOps := 0 }
-          else { s1 with tlrGoodOps := g }
-        else { s1 with tlrGoodOps := 0 }
-      { s2 with tlrActive := false, tlrFirstRTT := false, tlrHadAdditionalLoss := false, tlrEndTSN := 0 }
-    else s1
+  else if tlrFinish_done (a_cumulativeTSNAckPoint := s.cumAck) (a_tlrEndTSN := s.tlrEndTSN) then tlrEnd (tlrLeaveFirst s ackProgress)
+  else tlrLeaveFirst s ackProgress
 
 /-- `tlrAllowSendLocked(&budgetScaled, &consumed, estBytes)` with the non-nil pointers `gatherOutbound` passes:
 the answer and the new `(budgetScaled, consumed)` -/
@@ -372,9 +379,12 @@ def walk (f : WalkFns) (reoWnd : Int) (delivered : Int) : List (BitVec 32) → L
         { r with marks := t :: r.marks }
 
 /-- the tail shared by both callers: `if marked { if a.tlrActive { tlrApplyAdditionalLossLocked(now) } … }` -/
+def afterMarks (s : St) (env : Env) (marked : Bool) : St :=
+  if marked && s.tlrActive then tlrApplyAdditionalLoss s env s.now else s
+
+/-- the walk's result written back, then `afterMarks` -/
 def afterWalk (s : St) (env : Env) (r : WalkOut) : St :=
-  let s1 := { s with list := r.list, q := r.q }
-  if !r.marks.isEmpty && s1.tlrActive then tlrApplyAdditionalLoss s1 env s1.now else s1
+  afterMarks { s with list := r.list, q := r.q } env (!r.marks.isEmpty)
 
 /-- `onRackTimeoutLocked` -/
 def onRackTimeout (s : St) (env : Env) : St × List (BitVec 32) :=
@@ -385,14 +395,19 @@ def onRackTimeout (s : St) (env : Env) : St × List (BitVec 32) :=
 
 /-! ## onRackAfterSACK -/
 
+/-- step 1a: the high-watermark of delivered TSNs, or "reordering seen" when the newest delivered chunk is not above it -/
+def rackHw (s : St) (newestTSN : BitVec 32) : St :=
+  if rack_hwAdvances (a_rackHighestDeliveredOrigTSN := s.hw) (newestDeliveredOrigTSN := newestTSN)
+    then { s with hw := newestTSN } else { s with reorderingSeen := true }
+
+/-- step 1b: the latest send time among delivered chunks -/
+def rackNewer (s : St) (newestTime : Int) : St :=
+  if rack_newerDelivered (newestDeliveredSendTime := newestTime) (a_rackDeliveredTime := s.deliveredTime)
+    then { s with deliveredTime := newestTime } else s
+
 /-- step 1: high-watermark, reordering flag, delivered time -/
 def rackDelivered (s : St) (found : Bool) (newestTime : Int) (newestTSN : BitVec 32) : St :=
-  if found then
-    let s1 := if rack_hwAdvances (a_rackHighestDeliveredOrigTSN := s.hw) (newestDeliveredOrigTSN := newestTSN)
-      then { s with hw := newestTSN } else { s with reorderingSeen := true }
-    if rack_newerDelivered (newestDeliveredSendTime := newestTime) (a_rackDeliveredTime := s1.deliveredTime)
-      then { s1 with deliveredTime := newestTime } else s1
-  else s
+  if found then rackNewer (rackHw s newestTSN) newestTime else s
 
 /-- step 2a: `if minRTT := a.rack.rackMinRTTWnd.Min(currTime); minRTT > 0 { a.rackMinRTT = minRTT }` -/
 def reoMinRTT (s : St) : St :=
@@ -463,18 +478,27 @@ structure AckAcc where
   samples : List Int := []        -- ghost output: the RTT samples handed to `rtoMgr.setNewRTT` / `rackMinRTTWnd.Push`, oldest first
   deriving Inhabited, DecidableEq, Repr
 
-/-- the body of `if !chunkPayload.acked { … }` as far as RTT and RACK are concerned; `gap` selects the copy of the code -/
-def ackOne (gap : Bool) (s : St) (a : AckAcc) (c : Chunk) : St × AckAcc :=
+/-- the RTT sample inside `if !chunkPayload.acked { … }` (Karn: original transmissions only, once per round trip);
+`gap` selects the copy of the code -/
+def ackSample (gap : Bool) (s : St) (a : AckAcc) (c : Chunk) : St × AckAcc :=
   let measurable := if gap then psa_gapMeasurable (chunkPayload_tsn := c.tsn) (a_minTSN2MeasureRTT := s.minTSN2MeasureRTT)
                     else psa_cumMeasurable (chunkPayload_tsn := c.tsn) (a_minTSN2MeasureRTT := s.minTSN2MeasureRTT)
   let original := if gap then psa_gapOriginal (chunkPayload_nSent := c.nSent) else psa_cumOriginal (chunkPayload_nSent := c.nSent)
-  let r : St × AckAcc := if measurable && original then
-      let d := s.now - c.since
-      ({ s with minTSN2MeasureRTT := s.myNextTSN, minWnd := wminPush s.cfg.minRTTWindow s.minWnd s.now d }, { a with samples := a.samples ++ [d] })
-    else (s, a)
-  let newer := if gap then psa_gapNewer (chunkPayload_since := c.since) (newestDeliveredSendTime := r.2.newestTime)
-               else psa_cumNewer (chunkPayload_since := c.since) (newestDeliveredSendTime := r.2.newestTime)
-  if newer then (r.1, { r.2 with newestTime := c.since, newestTSN := c.tsn, found := true }) else r
+  if measurable && original then
+    ({ s with minTSN2MeasureRTT := s.myNextTSN, minWnd := wminPush s.cfg.minRTTWindow s.minWnd s.now (s.now - c.since) },
+     { a with samples := a.samples ++ [s.now - c.since] })
+  else (s, a)
+
+/-- "RACK.segment is the most recently sent segment that has been delivered": strictly later send time wins -/
+def ackNewest (gap : Bool) (a : AckAcc) (c : Chunk) : AckAcc :=
+  let newer := if gap then psa_gapNewer (chunkPayload_since := c.since) (newestDeliveredSendTime := a.newestTime)
+               else psa_cumNewer (chunkPayload_since := c.since) (newestDeliveredSendTime := a.newestTime)
+  if newer then { a with newestTime := c.since, newestTSN := c.tsn, found := true } else a
+
+/-- the body of `if !chunkPayload.acked { … }` as far as RTT and RACK are concerned -/
+def ackOne (gap : Bool) (s : St) (a : AckAcc) (c : Chunk) : St × AckAcc :=
+  let r := ackSample gap s a c
+  (r.1, ackNewest gap r.2 c)
 
 /-- `for idx := cumAck+1; sna32LTE(idx, cum); idx++ { pop(idx); rackRemove; … }`; `none` = `ErrInflightQueueTSNPop` -/
 def popCum : List Chunk → (idx cum : BitVec 32) → St → AckAcc → Option (List Chunk × St × AckAcc)
@@ -506,6 +530,14 @@ def gapAll : List (BitVec 32) → List Chunk → St → AckAcc → Option (List 
     | none => none
     | some r => gapAll ts r.1 r.2.1 r.2.2
 
+/-- the cumulative-point update of `processAcknowledgement` and the timer part of `onCumulativeTSNAckPointAdvanced`:
+the state and whether the point advanced (`old` = the cumulative point before the SACK) -/
+def ackFinish (old cum : BitVec 32) (q : List Chunk) (s : St) : St × Bool :=
+  if sna32LT old cum then
+    (if cumAck_allAcked (a_inflightQueue_size := (q.length : Int)) then stopRackTimer (stopPTOTimer { s with q := q, cumAck := cum })
+     else { s with q := q, cumAck := cum }, true)
+  else ({ s with q := q }, false)
+
 /-- `processSelectiveAck` + the cumulative-point update of `processAcknowledgement` + `onCumulativeTSNAckPointAdvanced`
 (timers): state, what was found, whether the cumulative point advanced. `gapTsns` = `cum + i` for every `i` of every
 gap block, in the order of the SACK. -/
@@ -516,12 +548,8 @@ def ackPhase (s : St) (cum : BitVec 32) (gapTsns : List (BitVec 32)) : Option (S
     match gapAll gapTsns r1.1 r1.2.1 r1.2.2 with
     | none => none
     | some r2 =>
-      let s2 := { r2.2.1 with q := r2.1 }
-      if sna32LT s.cumAck cum then
-        let s3 := { s2 with cumAck := cum }
-        let s4 := if cumAck_allAcked (a_inflightQueue_size := (s3.q.length : Int)) then stopRackTimer (stopPTOTimer s3) else s3
-        some (s4, r2.2.2, true)
-      else some (s2, r2.2.2, false)
+      let f := ackFinish s.cumAck cum r2.1 r2.2.1
+      some (f.1, r2.2.2, f.2)
 
 def iter (f : St → St) : Nat → St → St
   | 0, s => s
@@ -543,20 +571,26 @@ def sack (s : St) (env : Env) (cum : BitVec 32) (gapTsns : List (BitVec 32)) (nD
 
 /-! ## environment operations -/
 
+/-- `generateNextTSN`, `since = now`, `nSent = 1`, `inflightQueue.pushNoCheck` -/
+def pushChunk (s : St) : St :=
+  { s with myNextTSN := s.myNextTSN + 1, q := s.q ++ [{ tsn := s.myNextTSN, since := s.now, nSent := 1 }] }
+
 /-- the RACK part of `movePendingDataChunkToInflightQueue`: `since = now`, `nSent = 1`, `checkPartialReliabilityStatus`
-(`prFires`: it abandoned the message and called `rackRemove`), `pushNoCheck`, `rackInsert` -/
+(`prFires`: it abandoned the message and called `rackRemove`, a no-op for a chunk not yet listed), `pushNoCheck`, `rackInsert` -/
 def send (s : St) (prFires : Bool) : St :=
-  let t := s.myNextTSN
-  let s1 := { s with myNextTSN := s.myNextTSN + 1 }
-  let s2 := if prFires then rackRemove s1 t else s1
-  rackInsert { s2 with q := s2.q ++ [{ tsn := t, since := s2.now, nSent := 1 }] } t
+  rackInsert (pushChunk (if prFires then rackRemove s s.myNextTSN else s)) s.myNextTSN
+
+/-- what a retransmission does to the chunk: `retransmit = false` (T3/RACK/PTO path only), `nSent++`, `since = now` -/
+def retx (now : Int) (clearFlag : Bool) (c : Chunk) : Chunk :=
+  { c with retransmit := (if clearFlag then false else c.retransmit), nSent := c.nSent + 1, since := now }
+
+def touch (s : St) (t : BitVec 32) (clearFlag : Bool) : St := { s with q := modify s.q t (retx s.now clearFlag) }
 
 /-- a retransmission (`clearFlag`: the T3/RACK/PTO path of `getDataPacketsToRetransmit` resets `retransmit`; the fast
 retransmission path does not touch it): `nSent++`, `since = now`, `rackRemove`, `rackInsert`, `checkPartialReliabilityStatus` -/
 def resend (s : St) (t : BitVec 32) (clearFlag prFires : Bool) : St :=
-  let s1 := { s with q := modify s.q t fun c => { c with retransmit := (if clearFlag then false else c.retransmit), nSent := c.nSent + 1, since := s.now } }
-  let s2 := rackInsert (rackRemove s1 t) t
-  if prFires then rackRemove s2 t else s2
+  if prFires then rackRemove (rackInsert (rackRemove (touch s t clearFlag) t) t) t
+  else rackInsert (rackRemove (touch s t clearFlag) t) t
 
 /-- `abandoned()` becomes true for these chunks (their message's head got `_abandoned` and `_allInflight`) -/
 def abandon (s : St) (ts : List (BitVec 32)) : St :=
@@ -570,8 +604,8 @@ def t3 (s : St) : St :=
 def timerFire (s : St) (env : Env) : St × List (BitVec 32) :=
   let fireRack := timerLoop_rackDue (a_rackDeadline := s.rackDeadline) (currTime := s.now)
   let firePTO := timerLoop_ptoDue (a_ptoDeadline := s.ptoDeadline) (currTime := s.now)
-  let s1 := if fireRack then { s with rackDeadline := 0 } else s
-  let s2 := if firePTO then { s1 with ptoDeadline := 0 } else s1
+  let s1 := if fireRack then stopRackTimer s else s              -- `a.rackDeadline = time.Time{}`
+  let s2 := if firePTO then stopPTOTimer s1 else s1              -- `a.ptoDeadline = time.Time{}`
   let r1 := if fireRack then onRackTimeout s2 env else (s2, [])
   let r2 := if firePTO then onPTOTimer r1.1 env else (r1.1, [])
   (r2.1, r1.2 ++ r2.2)
